@@ -768,6 +768,19 @@ def script_symbols(g, n, out):
                     len(refs.get(id(b), []))))
 
     try:
+        # names that are patterns for some matcher, next to names they match
+        pairs = ["type.[4]uint8", "type.4uint8", "?f@@YAXXZ", "_f@@YAXXZ",
+                 "a*", "ab", "a.c", "abc", "%s", "{0}", "A", "a", "",
+                 "caf\u00e9", "cafe\u0301", "x\0", "x"]
+        pat = [g.Symbol(nm, uuid=U(800000 + i), module=m)
+               for i, nm in enumerate(pairs)]
+        for nm in pairs + ["type.*", "?", "*", "[a]"]:
+            need(same(m.symbols_named(nm), [y for y in pat if y.name == nm]),
+                 "C10/scale:symbols_named:name-with-metacharacters",
+                 lambda: "symbols_named(%r) gives %r" % (
+                     nm, [y.name for y in m.symbols_named(nm)]))
+        for y in pat:
+            m.symbols.discard(y)
         for i in range(n):
             y = g.Symbol("$d", payload=k1 if i % 2 else p1, uuid=U(i))
             if i % 3 == 0:
@@ -1062,6 +1075,59 @@ def script_bytes(g, n, out):
     return steps
 
 
+def script_addrspace(g, n, out):
+    """C19 over the coincidence cases: every enum constant of the module x
+    extents ending at 2^16 / 2^31 / 2^32 / 2^63 / 2^64: size and
+    initialized_size assignments, then save + load"""
+    from .. import ircases, irgen
+
+    steps = 0
+    cases = ircases.coincidence_cases()
+    for label, spec in cases[n::4]:
+        where = "addrspace %s" % label
+        steps += 1
+        try:
+            x, _ = irgen.build_ir(spec, "topdown")
+            want = {}
+            for m in x.modules:
+                for s in m.sections:
+                    for b in s.byte_intervals:
+                        sz = b.size
+                        b.size = sz + 1
+                        b.size = sz
+                        b.initialized_size = min(sz, 8)
+                        b.initialized_size = min(sz, 4)
+                        want[b.uuid] = (b.address, b.size, bytes(b.contents))
+                        need(b.initialized_size == len(b.contents)
+                             <= b.size, "C19/coincidence:initialized_size",
+                             where)
+            buf = io.BytesIO()
+            x.save_protobuf_file(buf)
+            try:
+                y = g.IR.load_protobuf_file(io.BytesIO(buf.getvalue()))
+            except Exception as e:  # noqa
+                need(False, "C19/coincidence:saved-interval-not-loadable:%s"
+                     % type(e).__name__, "%s: %r" % (where, e))
+                continue
+            for u, (a, sz, data) in want.items():
+                b2 = y.get_by_uuid(u)
+                need(b2 is not None and (b2.address, b2.size,
+                                         bytes(b2.contents)) == (a, sz, data),
+                     "C19/coincidence:save-load-changes-interval", where)
+                for k in (b2.blocks if b2 is not None else ()):
+                    need(k.address == a + k.offset
+                         and bytes(k.contents)
+                         == data[k.offset:k.offset + k.size]
+                         and k.contains_address(a + k.offset) == bool(k.size),
+                         "C19/coincidence:block-view", where)
+        except Bad as e:
+            out.append((e.finding, e.detail))
+        except Exception as e:  # noqa
+            out.append(("C19/coincidence:raises:%s" % type(e).__name__,
+                        "%s: %r" % (where, e)))
+    return steps
+
+
 # ----------------------------------------------------------------- big file
 def script_bigfile(g, n, out):
     """header faults on a file of n MiB, through both entry points"""
@@ -1227,7 +1293,7 @@ def plan(prop, tier):
         "C10": [("symbols", sizes)],
         "C11": [("cfg", sizes)],
         "C18": [("deep_eq", [9, 17, 33, 70])],
-        "C19": [("bytes", [16])],
+        "C19": [("bytes", [16]), ("addrspace", [0, 1, 2, 3])],
         "C17": [("bigfile", [1, 2])],
     }
     out = P.get(prop, [])
@@ -1262,6 +1328,8 @@ def run_script(name, n, prop):
         steps = script_bytes(g, n, out)
     elif name == "bigfile":
         steps = script_bigfile(g, n, out)
+    elif name == "addrspace":
+        steps = script_addrspace(g, n, out)
     elif name == "clone":
         steps = script_clone(g, n, prop, out)
         if prop == "C12":
